@@ -276,16 +276,29 @@ def r04_4(ctx: Ctx) -> None:
            "reverse-strand part lists are reversed into ascending order before the first/last part is read",
            form="")
     # linear clipping: max(0, start - d) and min(end + d, maximum)
-    clip_s = [c for c in calls(func) if call_name(c) == "max" and len(c.args) == 2 and txt(c.args[0]) == "0"
-              and "distance" in txt(c.args[1])]
-    clip_e = [c for c in calls(func) if call_name(c) == "min" and len(c.args) == 2 and txt(c.args[1]) == "maximum"
-              and "end + distance" in txt(c.args[0]) and "-" not in txt(c.args[0])]
-    ok = False
-    if clip_s and clip_e:
-        a_s = affine(clip_s[0].args[1])
-        a_e = affine(clip_e[0].args[0])
-        ok = a_s.terms == {"start_part.start": 1, "distance": -1} and a_s.const == 0 and \
-            a_e.terms == {"end_part.end": 1, "distance": 1} and a_e.const == 0
+    from ..flow import inline_reaching
+
+    def clipped(call: ast.Call, bound_ok, suffix: str, sign: int) -> bool:
+        if len(call.args) != 2:
+            return False
+        args = [inline_reaching(cfg, call, a, keep={"distance"}, max_depth=0) for a in call.args]
+        bounds = [a for a in args if bound_ok(a)]
+        others = [a for a in args if not bound_ok(a)]
+        if len(bounds) != 1 or len(others) != 1:
+            return False
+        try:
+            form = affine(others[0], atom_name=lambda n: txt(n) if isinstance(n, ast.Attribute) and n.attr in ("start", "end")
+                          else None)
+        except OutsideFragment:
+            return False
+        atoms = [k for k in form.terms if k != "distance"]
+        return form.const == 0 and form.terms.get("distance") == sign and len(atoms) == 1 and form.terms[atoms[0]] == 1 \
+            and atoms[0].endswith(suffix)
+    clip_s = [c for c in calls(func) if call_name(c) == "max" and clipped(
+        c, lambda a: isinstance(a, ast.Constant) and a.value == 0, ".start", -1)]
+    clip_e = [c for c in calls(func) if call_name(c) == "min" and clipped(
+        c, lambda a: txt(a) in ("maximum", "len(self)"), ".end", 1)]
+    ok = bool(clip_s) and bool(clip_e)
     ctx.ob("R04.4", REC, func, "Record.extend_location", "linear clipping", ok,
            "without wrapping the extension is clipped to [0, record length]",
            form=f"{txt(clip_s[0]) if clip_s else ''}; {txt(clip_e[0]) if clip_e else ''}")
